@@ -25,10 +25,14 @@ var yieldTargets = []struct {
 	rel   string
 	funcs []string
 }{
-	{"internal/ledger/state_accessor.go", []string{"FlushDirtyData", "Commit"}},
+	{"internal/ledger/state_accessor.go", []string{"FlushDirtyData", "Commit", "RollbackState"}},
 	{"internal/executor/handle.go", []string{"processExecuteEvent"}},
 	{"internal/executor/serial_executor.go", []string{"ApplyTransactions"}},
 }
+
+// readerIgnores: mutexes that the API reader's queries (account, nonce, code, storage) never take, so that a function
+// holding one of them for its whole body still gets yield points (journalMutex guards the journal window only).
+var readerIgnores = map[string]bool{"journalMutex": true}
 
 func lockCall(st ast.Stmt) (acquire, release, deferred bool) {
 	var call *ast.CallExpr
@@ -44,6 +48,9 @@ func lockCall(st ast.Stmt) (acquire, release, deferred bool) {
 	sel, ok := call.Fun.(*ast.SelectorExpr)
 	if !ok {
 		return
+	}
+	if inner, ok := sel.X.(*ast.SelectorExpr); ok && readerIgnores[inner.Sel.Name] {
+		return // a mutex none of the reader's queries takes
 	}
 	switch sel.Sel.Name {
 	case "Lock", "RLock":
